@@ -296,6 +296,27 @@ def lean_check_file(relpath, use_cache=True):
     return res
 
 
+def leanchecker_file(relpath):
+    """thorough tier: compile the property file to an .olean and let `leanchecker` (the toolchain's
+    independent re-checker) replay every declaration of the module through the kernel"""
+    t0 = time.time()
+    mod = relpath[:-5].replace('/', '.')
+    odir = os.path.join(LEAN, '.lake', 'build', 'lib', 'lean', os.path.dirname(relpath))
+    os.makedirs(odir, exist_ok=True)
+    base = os.path.join(odir, os.path.basename(relpath)[:-5])
+    with BuildLock():
+        ensure_property_oleans(relpath)
+        r = sh(['lake', 'env', 'lean', '-o', base + '.olean', '-i', base + '.ilean', relpath], cwd=LEAN, timeout=3000)
+        if r.returncode != 0 or not os.path.exists(base + '.olean'):
+            return {'ok': False, 'wall_s': round(time.time() - t0, 1), 'detail': 'no .olean: ' + (r.stdout + r.stderr)[-400:]}
+        with open(base + '.olean.hash', 'w') as f:
+            f.write(tree_hash())
+    r = sh(['lake', 'env', 'leanchecker', mod], cwd=LEAN, timeout=6000)
+    out = (r.stdout + r.stderr).strip()
+    return {'ok': r.returncode == 0 and 'exception' not in out.lower() and 'error' not in out.lower(),
+            'wall_s': round(time.time() - t0, 1), 'detail': out[-400:], 'module': mod}
+
+
 def run_spec(lines, timeout=3000):
     """pipe lines through the specification driver (independent of the generated tables)"""
     if not lines:
